@@ -481,7 +481,7 @@ theorem C04_dispatch_oj (v : JV) :
       (ty.startsWith "gen." = true → armOf Gen.WriterDispatch.ojAppendJSON ty = none) := by
   cases v <;> simp only [goTypesOf] <;> decide +kernel
 
-/-- the member filter the model applies (`Writer/OjModel.lean`, `dropMember`: a nil member under
+/-- the member filter the model applies (`Writer/OjModel.lean`, `skipMember`: a nil member under
 OmitNil; an empty string, object or array under OmitEmpty; nothing else) as the arms every object
 writer of oj has to have -/
 def omitArmsOf (fn : String) : List (String × List String) :=
